@@ -133,6 +133,8 @@ _d2i_ensures = [
     ("clamp-hi", f"implies(forceIntoProject and floor({_d2i_q}) >= self.size, result == self.size - 1)"),
     ("clamp-lo", "implies(forceIntoProject and date < self.startDate, result == 0)"),
     ("in-range", "0 <= result and result < self.size"),
+    # full functional form (makes the two configurations comparable): truncation, clamped when forced
+    ("exact", f"result == ite(forceIntoProject, ite(trunc({_d2i_q}) < 0, 0, ite(trunc({_d2i_q}) >= self.size, self.size - 1, trunc({_d2i_q}))), trunc({_d2i_q}))"),
 ]
 _d2i_raises = {"IndexError": f"not forceIntoProject and (trunc({_d2i_q}) < 0 or trunc({_d2i_q}) >= self.size)"}
 
